@@ -666,6 +666,46 @@ class Check(BaseCheck):
                     continue        # no range listener on `one`: only that it does not crash
                 if r != {'result': exp, 'error': None}:
                     rec.violation('C02/lookup-after-nested-evaluation-on-another-parser-answered-by-other-bindings', formula=f, record=r, expected=exp, debug=debug)
+        # NOW()/TODAY() follow the clock at every evaluation - also after evaluations that were aborted by an exception of any kind, including
+        # the ones parse() lets through (KeyboardInterrupt, a host's own cancellation signal derived from BaseException)
+        import datetime as _dt, time as _time
+
+        class Cancelled(BaseException):
+            pass
+        hx_ = env.load()
+        for kind in ('Cancelled', 'KeyboardInterrupt', 'ValueError', 'none'):
+            P = hx_.Parser()
+
+            def stop(*a, _kind=kind):
+                if _kind == 'Cancelled':
+                    raise Cancelled()
+                if _kind == 'KeyboardInterrupt':
+                    raise KeyboardInterrupt()
+                if _kind == 'ValueError':
+                    raise ValueError('x')
+                return 0
+            P.set_function('STOP', stop)
+            P.on('callCellValue', lambda c, s_: stop())
+            for f in ('STOP()+NOW()', 'NOW()+STOP()', 'A1+TODAY()', 'SUM(NOW(),STOP())'):
+                try:
+                    P.parse(f)
+                except BaseException:
+                    pass
+            seen = []
+            for Q in (P, hx_.Parser(), P):
+                t0 = _dt.datetime.now()
+                r = Q.parse('NOW()')
+                t1 = _dt.datetime.now()
+                rec.case()
+                ok = r['error'] is None and isinstance(r['result'], _dt.datetime) and t0 <= r['result'] <= t1
+                if not ok:
+                    rec.violation('C02/NOW-does-not-follow-the-clock:after-aborted-evaluations', aborted_by=kind, clock_before=t0, result=r, clock_after=t1)
+                seen.append(r['result'])
+                _time.sleep(0.003)
+            rec.nt(('clock-after-abort', kind))
+            r = P.parse('TODAY()')
+            if r['result'] != _dt.datetime.combine(_dt.date.today(), _dt.time()) and r['result'] != _dt.datetime.combine((_dt.datetime.now() - _dt.timedelta(seconds=5)).date(), _dt.time()):
+                rec.violation('C02/TODAY-does-not-follow-the-clock:after-aborted-evaluations', aborted_by=kind, result=r)
         b.functions['CF'] = ('const', 99)
         aged.parse('CF(1)')
         aged.set_function('CF', make_function(('const', 99)))
